@@ -352,7 +352,17 @@ func c02Run(c c02Case) Outcome {
 	for i, call := range calls {
 		if !call.Finished() {
 			evs := sc.EventsCopy()
-			return fail("caller-not-resolved", "request %s: the server answered it completely but RoundTrip has not returned (client quiescent; last events %d; goaways %v)", c.Reqs[i].Tag, len(evs), peer.GoAways(evs))
+			dump := ""
+			for _, g := range speer.ClientGoroutines() {
+				dump += firstLines(g, 14) + "\n"
+			}
+			sent := ""
+			for _, w := range sc.WroteLog() {
+				if w.Stream == byTag[c.Reqs[i].Tag] {
+					sent += fmt.Sprintf(" [type=%d flags=%#x len=%d]", w.Type, w.Flags, w.Len)
+				}
+			}
+			return fail("caller-not-resolved", "request %s (stream %d): the server answered it completely but RoundTrip has not returned (client quiescent; events %d; goaways %v); frames written on its stream:%s\nclient goroutines:\n%s", c.Reqs[i].Tag, byTag[c.Reqs[i].Tag], len(evs), peer.GoAways(evs), sent, dump)
 		}
 		if call.Returns.Load() != 1 {
 			return fail("resolved-twice", "request %s resolved %d times", c.Reqs[i].Tag, call.Returns.Load())
@@ -504,6 +514,10 @@ func genClientResp(t *rapid.T, tag string, maxBody int) c02Resp {
 	if rapid.IntRange(0, 7).Draw(t, "su") == 0 {
 		rs.SizeUpd = []int{rapid.SampledFrom([]int{0, 100, 4096}).Draw(t, "suv")}
 	}
+	if rs.BodyLen > 0 && rapid.IntRange(0, 4).Draw(t, "trailers") == 0 {
+		rs.Trailers = []peer.FieldSpec{genFieldSpec(t, "x-trailer-0", genValueN(t, "tv", genLen(t, "tvl", 40)))}
+		rs.Trailers[0].F.Sensitive = false
+	}
 	return rs
 }
 
@@ -529,7 +543,7 @@ func TestC02(t *testing.T) {
 		"1..6 concurrent RoundTrips through one HostClient/connection (methods, paths, 0..8 fields incl. mixed-case names, '_' and '^' in names, cookies and connection-specific fields that must be dropped; no body / buffered / SetBodyStream declared, unknown (-1) or empty, bodies up to 70000 with generated reader chunking) against a scripted TLS server in memory that answers each stream with a generated response (status, 1..9 fields carrying the request's tag, body up to 70000 also tagged) encoded by the reference HPACK encoder with per-field representation choices, header blocks cut into HEADERS+CONTINUATION at arbitrary octets, padded HEADERS/DATA, empty DATA frames, optional size update; response frames of different streams interleaved by a generated schedule, lock-step (client quiescence by hook counters and goroutine states) or burst. Oracle at the server: odd strictly increasing fresh stream ids, pseudo-headers and field multiset equal to what the caller gave minus connection-specific fields, body exact, END_STREAM once. At each caller: err==nil, status, every field and the body of exactly its own stream. Non-trivial = >=2 requests, or a streamed request body, or a split response block; distinct by case hash.",
 		"request/response field values stay inside the field-value grammar; user-agent/content-type/content-length are fasthttp singletons and compared loosely")
 	defer s.finish()
-	runLane(s, Lane[c02Case]{Name: "exchange", Journal: true, Quick: 800, Thor: 60000, Gen: c02Gen, Run: c02Run})
+	runLane(s, Lane[c02Case]{Name: "exchange", Journal: true, Quick: 600, Thor: 60000, Gen: c02Gen, Run: c02Run})
 }
 
 var _ = rawframe.Data
